@@ -367,6 +367,19 @@ func (c *client) sendErrorToAll(err error) {
 	c.mutex.Unlock()
 }
 
+// sendErrorToAllAndStopReading is for the read loop's final error: it fails every pending
+// execution and marks the read loop as stopped in the same critical section, so that an
+// execution registered afterwards starts a new read loop instead of waiting on this one.
+func (c *client) sendErrorToAllAndStopReading(err error) {
+	result := NewErrorExecutionResult(err)
+	c.mutex.Lock()
+	for runID := range c.runningStepResultEntries {
+		c.sendExecutionResult(runID, result)
+	}
+	c.readLoopRunning = false
+	c.mutex.Unlock()
+}
+
 func (c *client) handleWorkDoneMessage(runtimeMessage DecodedRuntimeMessage) {
 	var doneMessage WorkDoneMessage
 	var result ExecutionResult
@@ -414,7 +427,7 @@ func (c *client) handleErrorMessage(runtimeMessage DecodedRuntimeMessage) bool {
 	resultMsg := fmt.Errorf("step with run ID %q sent error message: %s", runtimeMessage.RunID, errorMessageStr)
 	c.logger.Errorf(resultMsg.Error())
 	if errMessage.ServerFatal {
-		c.sendErrorToAll(resultMsg)
+		c.sendErrorToAllAndStopReading(resultMsg)
 		return true // It's server fatal, so this is the last message from the server.
 	} else if errMessage.StepFatal {
 		if runtimeMessage.RunID == "" {
@@ -439,16 +452,16 @@ func (c *client) hasEntriesRemaining() bool {
 			return true
 		}
 	}
+	// No execution is waiting, so the read loop is about to exit. Clear the flag in this same
+	// critical section: an execution that registers from now on must start a new read loop.
+	c.readLoopRunning = false
 	return false
 }
 
 func (c *client) executeReadLoop(cborReader *cbor.Decoder) {
-	defer func() {
-		c.mutex.Lock()
-		defer c.mutex.Unlock()
-		c.readLoopRunning = false
-		c.wg.Done()
-	}()
+	// readLoopRunning is cleared by whichever step decides that the loop ends, in the same
+	// critical section as that decision (see hasEntriesRemaining, sendErrorToAllAndStopReading).
+	defer c.wg.Done()
 	// Loop and get all messages
 	// The message is generic, so we must find the type and decode the full message next.
 	var runtimeMessage DecodedRuntimeMessage
@@ -460,7 +473,7 @@ func (c *client) executeReadLoop(cborReader *cbor.Decoder) {
 				err,
 			)
 			// This is fatal since the entire structure of the runtime message is invalid.
-			c.sendErrorToAll(fmt.Errorf("failed to read or decode runtime message (%w)", err))
+			c.sendErrorToAllAndStopReading(fmt.Errorf("failed to read or decode runtime message (%w)", err))
 			return
 		}
 		switch runtimeMessage.MessageID {
